@@ -493,6 +493,32 @@ def _wide_store_case(j, rng, nrmax=8):
     return _with_names({'kind': 'store', 'inp': inp}, rng, j)
 
 
+# ---- stage 6: axes drawn after the fifth seeding round ---------------------------------------------------
+# 'poison': every sample of the recording that belongs to NO requested window (rows outside all windows, channels no
+# spike lists -- in particular the LAST channel, which index -1 aliases) holds an extreme value: +-inf / NaN / the
+# largest finite magnitude for float recordings, +-32767/-32768 for int16.  The statement makes the output
+# independent of those samples (zeros for -1 channels and outside the recording), so the model is unchanged.
+POISONS = ['nan', 'inf', 'mix', 'ninf', 'big']
+# 'pre': what is at the export path BEFORE export_waveforms is called (history of calls in one directory / leftovers):
+#  prev   = an earlier export_waveforms to the same path from the same recording: as many spikes, other samples and
+#           channel rows, another unit factor       prevf = the same export with another unit factor only
+#  same7  = a complete .npy of the declared shape and float64 holding other numbers
+#  long / short = a complete float64 .npy with two spikes more / one spike less     i16 = same shape, int16
+#  trunc  = a same-shape file cut short (interrupted export)      junk = bytes that are no .npy file
+PRES = ['prev', 'same7', 'prevf', 'long', 'trunc', 'prev', 'i16', 'junk', 'short']
+
+
+def _stage6_axes(case, j):
+    """rotate the two stage-6 axes over a drawn case (no random draws: the earlier streams are unchanged)"""
+    inp = case['inp']
+    cb = inp.get('backend') == 'cbin'
+    if j % 3 == 1 and not cb:
+        inp['poison'] = _rot(POISONS, j // 3)
+    if case['kind'] in ('export', 'store', 'exportu') and j % 4 == 2:
+        inp['pre'] = _rot(PRES, j // 4)
+    return case
+
+
 CORPUS = [
     # one boundary case per operator of the anchored code / per repaired defect (notes/C03.md)
     # double overflow (recording shorter than the window): top padding must be -t0 rows
@@ -664,10 +690,62 @@ CORPUS = [
                                         'factor': 'f25'},
                               'q_ids': [3, 0, 2, 0], 'q_ch': [0, 3, 5, 15, 16, 17, 20, 31, 32], 'qkind': 'i32',
                               'names': ['c.dat', 'b.dat', 'a.dat'], 'pkind': 'str'}},
+    # ---- stage 6 (fifth-round seeded changes C03-m12 / C03-m13) ----
+    # float recordings whose samples OUTSIDE the requested windows / channels are NaN, +-inf: a -1 entry must give
+    # zeros although index -1 aliases the last channel (here unrequested, hence non-finite)
+    {'kind': 'extract', 'inp': {'sizes': [4], 'nc': 2, 'cs': 4, 'samples': [0, 2, 3], 'n': 3, 'chans': [0, -1], 'poison': 'nan',
+                                'cfgs': [['ndarray', 'float32', 'int64', 'i64'], ['flat', 'float64', 'uint64', 'list'],
+                                         ['array', 'int16', 'int32', 'i32']]}},
+    {'kind': 'export', 'inp': {'sizes': [3, 2], 'nc': 3, 'cs': 2, 'backend': 'flat', 'dtype': 'float64', 'poison': 'mix',
+                               'spikes': [[0, [0, -1]], [2, [-1, 1]], [4, [1, 0]]], 'n': 3, 'w': 2, 'factor': 'f25',
+                               'sdtype': 'int64', 'cache': False, 'threads': 1}},
+    {'kind': 'store', 'inp': {'sizes': [4], 'nc': 3, 'cs': 3, 'backend': 'array', 'dtype': 'float32', 'poison': 'inf',
+                              'spikes': [[1, [-1, 0]], [3, [1, -1]]], 'n': 2, 'w': 2, 'factor': 'f1',
+                              'sdtype': 'uint64', 'cache': False, 'threads': 1, 'ids': [4, 9],
+                              'q_ids': [9, 4], 'q_ch': [0, 1, 2], 'qkind': 'i64'}},
+    # the export path already holds the result of an earlier export of as many spikes (other samples, other factor);
+    # a complete file of the declared shape with other numbers; a truncated one
+    {'kind': 'export', 'inp': {'sizes': [5], 'nc': 2, 'cs': 2, 'backend': 'flat', 'dtype': 'int16', 'pre': 'prev',
+                               'spikes': [[0, [0, 1]], [1, [1, -1]], [4, [1, 0]]], 'n': 3, 'w': 2, 'factor': 'f25',
+                               'sdtype': 'int64', 'cache': False, 'threads': 1}},
+    {'kind': 'export', 'inp': {'sizes': [3], 'nc': 2, 'cs': 2, 'backend': 'array', 'dtype': 'float32', 'pre': 'same7',
+                               'spikes': [[0, [0, 1]], [2, [1, -1]]], 'n': 3, 'w': 2, 'factor': 'def',
+                               'sdtype': 'uint64', 'cache': True, 'threads': 1}},
+    {'kind': 'store', 'inp': {'sizes': [2, 3], 'nc': 3, 'cs': 2, 'backend': 'flat', 'dtype': 'int16', 'pre': 'prevf',
+                              'spikes': [[0, [2, -1]], [2, [0, 1]], [4, [1, 2]]], 'n': 3, 'w': 2, 'factor': 'f1',
+                              'sdtype': 'int64', 'cache': False, 'threads': 1, 'ids': [7, 2, 5],
+                              'q_ids': [5, 7, 2], 'q_ch': [1, 0, 2], 'qkind': 'list'}},
+    {'kind': 'export', 'inp': {'sizes': [3], 'nc': 2, 'cs': 2, 'backend': 'flat', 'dtype': 'int16', 'pre': 'trunc',
+                               'spikes': [[0, [0, 1]], [2, [1, -1]]], 'n': 3, 'w': 2, 'factor': 'fh',
+                               'sdtype': 'int64', 'cache': False, 'threads': 1}},
+    # TemplateModel: the store files of the dataset directory are written twice (fixed names), the second time with
+    # another unit factor: save_spikes_subset_waveforms called again / export over a complete same-shape file
+    {'kind': 'model', 'inp': {'sizes': [4, 3], 'nc': 3, 'cs': 3, 'dtype': 'int16', 'samples': [0, 2, 2, 6], 'n': 4,
+                              'extra': 2, 'cmrot': 1, 'offset': 0, 'tdtype': 'uint64', 'raw': True,
+                              'store': {'via': 'save', 'nst': 50, 'mnc': 2, 'factor': 'f25', 'pre': 'prev'},
+                              'q_ids': [3, 0, 0], 'q_ch': [0, 1], 'qkind': 'i64'}},
+    {'kind': 'model', 'inp': {'sizes': [7], 'nc': 3, 'cs': 3, 'dtype': 'float32', 'samples': [0, 2, 2, 6], 'n': 4,
+                              'extra': 0, 'cmrot': 0, 'offset': 0, 'tdtype': 'int64', 'raw': False,
+                              'store': {'via': 'export', 'ids': [1, 2, 3], 'table': [[0, -1], [-1, 2], [1, 1]], 'factor': 'i2',
+                                        'pre': 'same7'},
+                              'q_ids': [2, 3, 1], 'q_ch': None, 'qkind': 'list'}},
 ]
 
 
 def generate(tier, rng):
+    cases = _generate(tier, rng)
+    # stage 6: the two new axes rotated over every drawn case (the corpus carries its own forced instances)
+    nco = len(CORPUS)
+    for j, c in enumerate(cases[nco:]):
+        if c['kind'] in ('extract', 'export', 'store', 'exportu'):
+            c['inp'] = dict(c['inp'])
+            _stage6_axes(c, j)
+        elif c['kind'] == 'model' and c['inp'].get('store') and j % 3 == 1:
+            c['inp'] = dict(c['inp'], store=dict(c['inp']['store'], pre=_rot(['prev', 'same7'], j // 3)))
+    return cases
+
+
+def _generate(tier, rng):
     cases = [dict(c) for c in CORPUS]
     if tier == 'search':
         for i in range(1500):
@@ -847,12 +925,45 @@ def _part_paths(d, k, names=None, default='f%d.bin'):
     return out
 
 
-def _traces(np, d, backend, sizes, nc, cs, dtype, threads=1, amp=1, names=None, pkind='path'):
-    """-> (traces object, closer, chunk info or None)"""
+def _referenced(np, nr, nc, n, pairs):
+    """boolean (nr, nc) mask of the samples that belong to a requested window: pairs = [(spike sample, channel list or
+    None = every channel)]; rows [s - n//2, s - n//2 + n) inside the recording x the listed channels >= 0"""
+    ref = np.zeros((nr, nc), dtype=bool)
+    for s, ch in pairs:
+        t0 = int(s) - n // 2
+        lo, hi = max(t0, 0), min(t0 + n, nr)
+        if lo < hi:
+            cols = list(range(nc)) if ch is None else sorted(set(int(c) for c in ch if c >= 0))
+            if cols:
+                ref[lo:hi, cols] = True
+    return ref
+
+
+def _poison(np, arr, kind, ref):
+    """stage 6: overwrite every sample outside the requested windows with extreme values of the sample type"""
+    if not kind or ref is None:
+        return arr
+    if arr.dtype.kind == 'f':
+        big = float(np.finfo(arr.dtype).max)
+        vals = {'nan': [np.nan], 'inf': [np.inf], 'ninf': [-np.inf], 'big': [big, -big],
+                'mix': [np.inf, np.nan, -np.inf, big, -big]}[kind]
+    else:
+        info = np.iinfo(arr.dtype)
+        vals = [info.max, info.min] if kind != 'ninf' else [info.min]
+    idx = np.argwhere(~ref)
+    if len(idx):
+        arr[idx[:, 0], idx[:, 1]] = np.array([vals[t % len(vals)] for t in range(len(idx))], dtype=arr.dtype)
+    return arr
+
+
+def _traces(np, d, backend, sizes, nc, cs, dtype, threads=1, amp=1, names=None, pkind='path', poison=None):
+    """-> (traces object, closer, chunk info or None); poison = None | (kind, mask of the requested samples)"""
     from phylib.io.traces import get_ephys_reader
     from pathlib import Path
     nr = sum(sizes)
     arr = _data(np, nr, nc, dtype, amp)
+    if poison and backend != 'cbin':
+        arr = _poison(np, arr, poison[0], poison[1])
     if backend == 'ndarray':
         return arr, None, None
     rate = cs / 600.0
@@ -909,15 +1020,55 @@ def _factor(np, key):
     return eval(FACTORS[key][0], {'np': np})
 
 
+def _pre_file(np, path, i, tr, table):
+    """stage 6: put something at the export path before the export that is judged (see PRES)"""
+    from phylib.io.traces import export_waveforms
+    pre = i['pre']
+    ns, nr = len(i['spikes']), sum(i['sizes'])
+    shape = (ns, i['n'], i['w'])
+    if pre in ('prev', 'prevf'):
+        if pre == 'prev':          # as many spikes: mirrored samples (sorted), channel rows in reverse order
+            vals = sorted(nr - 1 - s for s, _ in i['spikes'])
+            tab = table[::-1].copy()
+        else:
+            vals, tab = [s for s, _ in i['spikes']], table
+        export_waveforms(path, tr, _samples(np, vals, i['sdtype']), tab, n_samples_waveforms=i['n'],
+                         sample2unit=3.0 if i['factor'] != 'def' else 0.5)
+    elif pre == 'same7':
+        np.save(path, np.full(shape, 7.0))
+    elif pre == 'long':
+        np.save(path, np.full((ns + 2,) + shape[1:], 7.0))
+    elif pre == 'short':
+        np.save(path, np.full((max(ns - 1, 0),) + shape[1:], 7.0))
+    elif pre == 'i16':
+        np.save(path, np.full(shape, 7, dtype=np.int16))
+    elif pre == 'trunc':
+        np.save(path, np.full(shape, 7.0))
+        sz = os.path.getsize(path)
+        with open(path, 'r+b') as f:
+            f.truncate(max(sz - 9, 1))
+    elif pre == 'junk':
+        with open(path, 'wb') as f:
+            f.write(b'not an npy file\n' * 3)
+    else:
+        raise ValueError(pre)
+
+
 def _do_export(np, d, i):
     from phylib.io.traces import export_waveforms
+    poison = None
+    if i.get('poison'):
+        poison = (i['poison'], _referenced(np, sum(i['sizes']), i['nc'], i['n'], [(s, r) for s, r in i['spikes']]))
     tr, close, chunkinfo = _traces(np, d, i['backend'], i['sizes'], i['nc'], i['cs'], i['dtype'], i.get('threads', 1),
-                                   amp=i.get('amp', 1), names=i.get('names'), pkind=i.get('pkind') or 'path')
+                                   amp=i.get('amp', 1), names=i.get('names'), pkind=i.get('pkind') or 'path',
+                                   poison=poison)
     try:
         samples = _samples(np, [s for s, _ in i['spikes']], i['sdtype'])
         table = np.array([r for _, r in i['spikes']], dtype=np.int64).reshape(len(i['spikes']), i['w'])
         path = os.path.join(d, 'w.npy')
         kw = {} if i['factor'] == 'def' else {'sample2unit': _factor(np, i['factor'])}
+        if i.get('pre'):
+            _pre_file(np, path, i, tr, table)
         export_waveforms(path, tr, samples, table, n_samples_waveforms=i['n'], cache=i['cache'], **kw)
     finally:
         if close:
@@ -938,8 +1089,13 @@ def run_case(case):
                 try:
                     sub = os.path.join(d, 'c%d' % len(results))
                     os.mkdir(sub)
+                    poison = None
+                    if i.get('poison'):
+                        chs = None if ckind == 'none' else i['chans']
+                        poison = (i['poison'], _referenced(np, sum(i['sizes']), i['nc'], i['n'],
+                                                           [(s, chs) for s in i['samples']]))
                     tr, close, _ = _traces(np, sub, backend, i['sizes'], i['nc'], i['cs'], dtype,
-                                           names=i.get('names'), pkind=i.get('pkind') or 'path')
+                                           names=i.get('names'), pkind=i.get('pkind') or 'path', poison=poison)
                     try:
                         if ckind == 'none':
                             # channel_ids=None (every channel): only _extract_waveform accepts it
@@ -1049,6 +1205,9 @@ def _run_model(np, d, i):
         m = TemplateModel(dat_path=paths, **kw)          # the store is exported from the model's own traces
         try:
             if st['via'] == 'save':
+                if st.get('pre'):      # stage 6: the store files (fixed names) already written once, with another unit factor
+                    m.save_spikes_subset_waveforms(max_n_spikes_per_template=st['nst'], max_n_channels=st.get('mnc'),
+                                                   sample2unit=3.0)
                 m.save_spikes_subset_waveforms(max_n_spikes_per_template=st['nst'], max_n_channels=st.get('mnc'),
                                                sample2unit=_factor(np, st['factor']))
                 info = DS.read_store(np, d)
@@ -1270,6 +1429,12 @@ def dist(case, obs):
             out += ['files.given_in_sorted_name_order=%s' % _lex_sorted(i.get('names'), len(i['sizes']), 'raw%d.dat' if k == 'model' else 'f%d.bin'),
                     'files.paths_as=' + (i.get('pkind') or 'path')]
     out.append('channels=%s' % ('1-4' if i['nc'] <= 4 else '5-64' if i['nc'] <= 64 else '65+'))
+    if k != 'model':
+        out.append('unrequested_samples=%s' % (i.get('poison') or 'ordinary'))
+    if k in ('export', 'store', 'exportu'):
+        out.append('file_at_export_path_before=%s' % (i.get('pre') or 'none'))
+    if k == 'model' and i.get('store'):
+        out.append('file_at_export_path_before=%s' % (i['store'].get('pre') or 'none'))
     if obs[0] == 'crash':
         out.append('crash=' + obs[1])
         return out
@@ -1341,6 +1506,8 @@ def _shrink_model(case):
         return {'kind': 'model', 'inp': j}
     st = i.get('store')
     nr = sum(i['sizes'])
+    if st and st.get('pre'):
+        yield mk(store={key: v for key, v in st.items() if key != 'pre'})
     for d in range(len(i['q_ids'])):
         if len(i['q_ids']) > 1:
             yield mk(q_ids=i['q_ids'][:d] + i['q_ids'][d + 1:])
@@ -1408,11 +1575,17 @@ def shrink(case):
     def mk(**kw):
         j = dict(i)
         j.update(kw)
-        for key in ('names', 'pkind'):
+        for key in ('names', 'pkind', 'poison', 'pre'):
             if j.get(key, 0) is None:
                 del j[key]
         return {'kind': k, 'inp': j}
     nr = sum(i['sizes'])
+    if i.get('pre'):
+        yield mk(pre=None)
+    if i.get('poison'):
+        yield mk(poison=None)
+        if i['poison'] != 'nan':
+            yield mk(poison='nan')
     # default file names / default kind of path argument; the last two files merged
     if i.get('pkind'):
         yield mk(pkind=None)
